@@ -211,6 +211,7 @@ def main(argv=None):
     ap.add_argument("--no-mutants", action="store_true")
     ap.add_argument("--verbose", "-v", action="store_true")
     ap.add_argument("--explain", help="for failed obligations matching this regex, show which conjunct fails")
+    ap.add_argument("--only", help="solve only the obligations whose name matches this regex (debugging)")
     ap.add_argument("--dump", help="write SMT-LIB of obligations matching this regex to stdout")
     a = ap.parse_args(argv)
     prop, tier = a.prop, a.tier
@@ -273,7 +274,25 @@ def main(argv=None):
                 print("; ---- " + o.name)
                 print(SV.to_smt2(o.pc, o.goal))
         return 0
+    if a.only:
+        obls = [o for o in obls if re.search(a.only, o.name)]
     results = SV.solve_all(obls, budget, cross=(tier == "thorough"))
+    # grouped obligations (conjunction of a path's postconditions / frame conditions) that did not discharge
+    # are split into their named parts, so that the report names the clause
+    from .engine import Obl
+    n_groups = len([o for o in obls if o.parts])
+    extra_o = []
+    keep_o, keep_r = [], []
+    for o, r in zip(obls, results):
+        if o.parts and r["result"] != "unsat":
+            for nm, g in o.parts:
+                extra_o.append(Obl(nm, o.kind, o.line, o.pc, g, o.target, o.info, o.trace))
+        else:
+            keep_o.append(o)
+            keep_r.append(r)
+    if extra_o:
+        extra_r = SV.solve_all(extra_o, budget, cross=(tier == "thorough"))
+        obls, results = keep_o + extra_o, keep_r + extra_r
     proof, canaries, covers = classify(obls, results)
     solver_s = sum(r["seconds"] for r in results)
     by_backend = {}
